@@ -262,5 +262,92 @@ theorem readMarkupDeclaration_adv (t : Tokenizer) (h : Ok t) (h2 : 2 ≤ t.rawE)
   have h0 : Adv t { t with dataS := t.rawE } := (Adv.refl h).congr (by crfl)
   exact h0.trans (markupGo_adv _ h0.ok h2 rfl)
 
+/-! ### raw text and the script automaton -/
+
+theorem rawEndTagLoop_adv (t : Tokenizer) (cs : List Nat) (h : Ok t) (hcs : ∀ c ∈ cs, 32 ≤ c) :
+    Adv t (rawEndTagLoop t cs).1 := by
+  induction cs generalizing t with
+  | nil => exact Adv.refl h
+  | cons c cs ih =>
+    have a1 := readByte_adv h
+    have hc : 32 ≤ c := hcs c (by simp)
+    have ih' := ih t.readByte.1 a1.ok (fun c hc => hcs c (by simp [hc]))
+    simp only [rawEndTagLoop]
+    split
+    · exact a1
+    · rename_i herr
+      split
+      · split
+        · omega
+        · split
+          · exact read_unread_adv h herr
+          · exact a1.trans ih'
+      · exact a1.trans ih'
+
+theorem readRawEndTag_adv (b t : Tokenizer) (hb : Adv b t) (h2 : b.rawE + 2 ≤ t.rawE) (htag : ∀ c ∈ t.rawTag, 32 ≤ c) :
+    Adv b (readRawEndTag t).1 ∧ ((readRawEndTag t).2 = false → Adv t (readRawEndTag t).1) ∧
+    ((readRawEndTag t).2 = true →
+      (readRawEndTag t).1.rawE + 2 = t.rawE ∧ t.rawE + t.rawTag.length + 1 ≤ t.buf.size) := by
+  have hl := rawEndTagLoop_adv t t.rawTag hb.ok htag
+  have hr := rawEndTagLoop_rawE t t.rawTag
+  unfold readRawEndTag
+  simp only
+  generalize rawEndTagLoop t t.rawTag = l at *
+  split
+  · exact ⟨hb.trans hl, fun _ => hl, by simp⟩
+  · rename_i hok
+    have hok' : l.2 = true := by simpa using hok
+    have he := hr.2.2 hok'
+    have a1 := readByte_adv hl.ok
+    split
+    · exact ⟨hb.trans (hl.trans a1), fun _ => hl.trans a1, by simp⟩
+    · rename_i herr
+      have e1 := readByte_succ herr
+      split
+      · have hk : 3 + t.rawTag.length ≤ l.1.readByte.1.rawE := by omega
+        refine ⟨?_, by simp, fun _ => ?_⟩
+        · exact unread_adv _ (hb.trans (hl.trans a1)) (by omega)
+        · have hu := unread_rawE_eq _ hk
+          have h5 := a1.ok.le
+          rw [a1.buf, hl.buf] at h5
+          simp only [hu]
+          omega
+      · exact ⟨hb.trans (hl.trans (read_unread_adv hl.ok herr)), fun _ => hl.trans (read_unread_adv hl.ok herr), by simp⟩
+
+theorem dblEscLoop_adv (t : Tokenizer) (cs : List (Nat × Nat)) (h : Ok t) : Adv t (dblEscLoop t cs).1 := by
+  induction cs generalizing t with
+  | nil => exact Adv.refl h
+  | cons c cs ih =>
+    obtain ⟨lo, up⟩ := c
+    have a1 := readByte_adv h
+    simp only [dblEscLoop]
+    split
+    · exact a1
+    · rename_i herr
+      split
+      · exact read_unread_adv h herr
+      · exact a1.trans (ih _ a1.ok)
+
+/-- bytes of the current token that must already have been read when the automaton is in a state
+(`</` before the three end-tag states, `<` before the three less-than-sign states) -/
+def SS.need : SS → Nat
+  | .endTagOpen | .escapedEndTagOpen | .doubleEscapedEnd => 2
+  | .lessThanSign | .escapedLessThanSign | .doubleEscapedLessThanSign => 1
+  | _ => 0
+
+theorem script_letters : ∀ c ∈ htmlScript, 32 ≤ c := by decide
+
+theorem scriptGo_adv (st : SS) (b t : Tokenizer) (hb : Adv b t) (hk : b.rawE + st.need ≤ t.rawE)
+    (hs : b.rawTag = htmlScript) : Adv b (scriptGo st t) := by
+  fun_induction scriptGo st t
+  case case2 =>
+    simp +zetaDelta only at *
+    apply_assumption
+    · exact hb.trans (readByte_adv hb.ok)
+    · simp only [SS.need] at *
+      have := readByte_succ (by assumption)
+      omega
+  all_goals sorry
+
 end Tokenizer
 end Rio.Html
